@@ -117,6 +117,11 @@ func genProgram(r *Rng, group bool) *World {
 			if r.Pct(30) {
 				op.MW = append(op.MW, tag("U"))
 			}
+			if r.Pct(4) { // a long chain: more middlewares than any fixed-size buffer a router might keep
+				for j := r.Range(18, 36); j > 0; j-- {
+					op.MW = append(op.MW, tag("U"))
+				}
+			}
 		case k < 42 && len(m.Order) > 0: // remove through a facade or directly
 			op.K = "remove"
 			target := pick(r, m.Order)
